@@ -451,6 +451,36 @@ def split_segments(events, reset_key="op", reset_val="Reset"):
     return segs
 
 
+def run_plans(run, comp, plans, timeout=3000, reset_key="op", reset_val="Reset"):
+    """Run plans (each a list of plan lines starting with a reset line) through one driver process and return one trace segment
+    per plan.  If the process dies inside the code under test (a Go fatal error - stack overflow, concurrent map write - cannot be
+    recovered), the plan during which it died is pinned down by running the following plans one by one, recorded as a NoCrash
+    rejection (its segment is the partial trace plus a crash line, judged by nothing else), and the rest is resumed."""
+    segs, i = [], 0
+    while i < len(plans):
+        evs, rc, err = run_driver(run, comp, [c for p in plans[i:] for c in p], timeout=timeout, allow_fail=True)
+        cur = split_segments(evs, reset_key, reset_val)
+        if rc == 0:
+            segs += cur
+            break
+        msg = next((ln.strip() for ln in err.splitlines() if ln.startswith(("fatal error:", "panic:", "runtime:"))), "")
+        if not msg:
+            raise Inconclusive("driver %s failed rc=%d: %s" % (comp, rc, err[-1500:]))
+        done = max(0, len(cur) - 1)          # the last segment may be incomplete (and buffered lines may be missing altogether)
+        segs += cur[:done]
+        i += done
+        while i < len(plans):
+            one, rc1, err1 = run_driver(run, comp, plans[i], timeout=600, allow_fail=True)
+            if rc1 != 0:
+                crash_rejection(run, comp, msg, plans[i])
+                segs.append(None)
+                i += 1
+                break
+            segs += split_segments(one, reset_key, reset_val)
+            i += 1
+    return segs
+
+
 # ----------------------------------------------------------------------------
 # Trace validation
 # ----------------------------------------------------------------------------
